@@ -5,8 +5,8 @@ from pathlib import Path
 def run_all(src_dir: Path, out_dir: Path, log: list) -> dict:
     out_dir.mkdir(parents=True, exist_ok=True)
     status = {}
-    from . import tr_consts, tr_transforms, tr_facts
-    for mod in (tr_consts, tr_transforms, tr_facts):
+    from . import tr_consts, tr_transforms, tr_facts, tr_logic
+    for mod in (tr_consts, tr_transforms, tr_facts, tr_logic):
         name = mod.__name__.split('.')[-1]
         try:
             text, st = mod.translate(src_dir)
